@@ -270,6 +270,69 @@ var hostileTexts = []string{"", " ", "1 ", " 1", "+1", "-", "--1", "1.0", "1e3",
 // rawEscapes go on the wire as they are: escapes that decode to nothing sensible.
 var rawEscapes = []string{"%zz", "%", "%4", "a%00b", "%C0%AF", "%FF%FE", "%2", "1%"}
 
+// rawSegments go into the path as they are: escaped slashes, bytes net/url would have escaped, dot segments,
+// literal slashes (which change the number of segments), escaped delimiters.
+var rawSegments = []string{"a%2Fb", "a|b%2Fkeys", "é%2Fx", "%2F", "a%2F..%2Fb", "..", ".", "a%3Fb", "a%23b", "a;b", "a%20b", "x/y", "/", "%65cho", "json%2F1", "shapes%2Falpha",
+	"1%2F2", "alpha%2F", "%2Falpha", "a{b}", "a\"b", "a^b", "a`b", "%7Bid%7D", "1/2/3", "params%2Fa%2F1%2F.b"}
+
+// worldRoutes: the world's path templates, segment by segment ("*" = a parameter).
+var worldRoutes = []struct {
+	op, method string
+	segs       []string
+}{
+	{"echoJSON", "POST", []string{"echo", "json", "*"}}, {"echoJSONStream", "POST", []string{"echo", "jsonstream"}}, {"echoForm", "POST", []string{"echo", "form"}},
+	{"echoMultipart", "POST", []string{"echo", "multipart"}}, {"echoStream", "POST", []string{"echo", "stream"}}, {"echoWild", "POST", []string{"echo", "wild"}},
+	{"echoParams", "GET", []string{"echo", "params", "*", "*", "*"}}, {"echoShapes", "POST", []string{"echo", "shapes", "*"}}, {"variants", "POST", []string{"variants"}},
+	{"secure", "GET", []string{"secure"}}, {"secure2", "GET", []string{"secure2"}},
+}
+
+// worldRoute says which operation a raw (escaped) path designates: segments are what lies between literal
+// slashes; a static segment matches by its decoded text, a parameter takes any non-empty segment.
+// It returns the operation ("" = no such path) and the method it accepts.
+func worldRoute(raw string) (op, method string) {
+	if !strings.HasPrefix(raw, "/") {
+		return "", ""
+	}
+	segs := strings.Split(raw[1:], "/")
+	for _, rt := range worldRoutes {
+		if len(rt.segs) != len(segs) {
+			continue
+		}
+		ok := true
+		for i, want := range rt.segs {
+			got, err := url.PathUnescape(segs[i])
+			if err != nil || (want == "*" && segs[i] == "") || (want != "*" && got != want) {
+				ok = false
+				break
+			}
+		}
+		if ok {
+			return rt.op, rt.method
+		}
+	}
+	return "", ""
+}
+
+// worldPath is the escaped path the generated client sends for an operation, up to its parameter values
+// (used to rebuild what a path rewrite made of it: only the number of segments and the static ones matter).
+func worldPathAfter(op string, seg int, val string) (string, bool) {
+	for _, rt := range worldRoutes {
+		if rt.op != op {
+			continue
+		}
+		segs := make([]string, len(rt.segs))
+		for i, s := range rt.segs {
+			segs[i] = s
+			if s == "*" {
+				segs[i] = "v" // stands for whatever non-empty value the client sent
+			}
+		}
+		segs[seg%len(segs)] = val
+		return "/" + strings.Join(segs, "/"), true
+	}
+	return "", false
+}
+
 // sampleMangle draws a rewrite of one piece of the request head. targets: e.g. "query:n32", "header#1", "path:2".
 func sampleMangle(rng *rand.Rand, targets []string) *Fault {
 	t := targets[rng.Intn(len(targets))]
@@ -478,7 +541,10 @@ func sampleCall(rng *rand.Rand, mode Mode) Call {
 		case 13:
 			c.Fault = &Fault{Kind: []string{"dup", "replay"}[rng.Intn(2)]}
 		}
-		if pt := worldParamTypes[c.Op]; pt != nil && rng.Intn(3) == 0 {
+		if rng.Intn(12) == 0 {
+			// an intermediary rewrites one path segment, as written
+			c.Fault = &Fault{Kind: "mangle", Arg: fmt.Sprintf("path:%d", rng.Intn(5)), Val: rawSegments[rng.Intn(len(rawSegments))]}
+		} else if pt := worldParamTypes[c.Op]; pt != nil && rng.Intn(3) == 0 {
 			var targets []string
 			for t := range pt {
 				targets = append(targets, t)
@@ -762,6 +828,34 @@ func oracleC15(r *CallRecord) []problem {
 			// multipart closing delimiter), the complete request; never partial data
 			if !(s.HandlerCalls == 0 && s.Status == 400) && !(s.HandlerCalls == 1 && s.ServerSaw == r.ExpectServerSaw && r.Call.Invalid == "") {
 				add("a body cut or broken in flight is answered 400 and never reaches the handler with partial data", fmt.Sprintf("delivery %d: status %d, handler calls %d, handler saw %s", i, s.Status, s.HandlerCalls, clip(s.ServerSaw, 160)))
+			}
+		case k == "mangle" && strings.HasPrefix(r.Call.Fault.Arg, "path:") && r.Call.Cred == "" && worldParamTypes[r.Call.Op][r.Call.Fault.Arg] == "":
+			var seg int
+			fmt.Sscanf(r.Call.Fault.Arg, "path:%d", &seg)
+			if raw, ok := worldPathAfter(r.Call.Op, seg, r.Call.Fault.Val); ok {
+				op, method := worldRoute(raw)
+				sent := "POST"
+				if r.Call.Op == "echoParams" || r.Call.Op == "secure" || r.Call.Op == "secure2" {
+					sent = "GET"
+				}
+				switch {
+				case op == "":
+					if s.HandlerCalls != 0 || s.MiddlewareOps != 0 || s.Status != 404 {
+						add("a path that designates no operation is answered 404 and reaches no handler", fmt.Sprintf("delivery %d: path rewritten to %s: status %d, handler calls %d, middleware saw %s", i, raw, s.Status, s.HandlerCalls, clip(s.MiddlewareSaw, 80)))
+					}
+				case method != sent:
+					if s.HandlerCalls != 0 || s.MiddlewareOps != 0 || s.Status != 405 {
+						add("a path whose operation does not take the method is answered 405 and reaches no handler", fmt.Sprintf("delivery %d: path rewritten to %s (%s %s): status %d, handler calls %d", i, raw, method, op, s.Status, s.HandlerCalls))
+					}
+				default:
+					want := strings.ToUpper(op[:1]) + op[1:]
+					if s.MiddlewareOps > 0 && !strings.HasPrefix(s.MiddlewareSaw, want+" ") {
+						add("a request reaches only the operation its path designates", fmt.Sprintf("delivery %d: path rewritten to %s designates %s, middleware saw %s", i, raw, want, clip(s.MiddlewareSaw, 80)))
+					}
+					if s.MiddlewareOps == 0 && s.Status != 400 && s.Status != 401 && s.Status != 415 {
+						add("a request that does not reach the handler is answered 404/405/401/400/415", fmt.Sprintf("delivery %d: path rewritten to %s designates %s: status %d without a handler call", i, raw, want, s.Status))
+					}
+				}
 			}
 		case k == "mangle":
 			if typ := worldParamTypes[r.Call.Op][r.Call.Fault.Arg]; typ != "" {
